@@ -461,14 +461,16 @@ pub fn c18(seed: u64, thorough: bool, tw: &mut TraceWriter) -> Cov {
             cfg.notifydown = r.random_range(0..3) != 0;
             cfg.maxtx = pick(&mut r, &[1u8, 2, 3]);
             cfg.fanout = pick(&mut r, &[1usize, 2, 3]);
-            let pol = pick(&mut r, &[Policy::None, Policy::None, Policy::Next, Policy::Next, Policy::Losing, Policy::Same]);
+            let pol = pick(&mut r, &[Policy::None, Policy::None, Policy::Next, Policy::Next, Policy::Losing, Policy::Same, Policy::Cycle, Policy::Cycle]);
             let scfg = SimCfg { n, cfg: cfg.clone(), codec: CodecKind::Hand(Mode::Fixed), handler: HandlerCfg::default(), pol,
                                 seed: r.random(), lat: (0, 0), late: 0 };
             let mut sim = Sim::new(scfg, run, "c18", json!({}), tw);
             run += 1;
             sim.hold_timers = true;
             for i in 0..n {
-                sim.spawn(i, 1);
+                // with the cycling policy some instances sit right before the wrap-around
+                let g = if pol == Policy::Cycle && r.random_range(0..2) == 0 { 3 } else { 1 };
+                sim.spawn(i, g);
             }
             // mutual knowledge
             let mut desc = vec![];
